@@ -154,6 +154,8 @@ def gen_point(rng, meas=MEAS, allow_no_time=False, extra_tag_vals=(), extra_meas
     p["fields"] = fields
     if p["t"] is not None and rng.random() < 0.15:
         p["assign"] = True  # built as Point() and filled in by attribute assignment
+    if rng.random() < 0.08:
+        p["subclass"] = True  # an instance of an application's subclass of Point
     return p
 
 
@@ -206,7 +208,7 @@ def gen_atom(rng, opts):
         if c == 1:
             return ("test", "tags", (rng.choice(TAG_KEYS),), "truthy", ())
         if c == 2:
-            return ("test", "fields", (rng.choice(FIELD_KEYS),), "num_pos", ())
+            return ("test", "fields", (rng.choice(FIELD_KEYS),), rng.choice(["num_pos", "num_pos", "signbit"]), ())
         if c == 3:
             return ("test", "fields", (rng.choice(FIELD_KEYS),), "is_none", ())
         if c == 4:
